@@ -179,6 +179,11 @@ def r3_provenance(ctx):
                     continue  # event-prediction code: outside the rule (data-dependent loops), stated in the level text
                 ctx.unknown("C06.R3", where, None, f"{g.cfg.name}: cannot evaluate `{name}` in the mask domain: {res.failures[name]}", construct=cons, instance=f"{g.cfg.name}:{name}")
                 continue
+            failed_anc = sorted(a_ for a_ in g.ancestors(name) if a_ in res.failures and not a_.startswith("predictions_")) if name in flagged else []
+            if failed_anc:
+                # flagged only because an ancestor could not be evaluated (its stand-in is the most pessimistic value): not a finding about this node
+                ctx.unknown("C06.R3", where, None, f"{g.cfg.name}: `{name}` derives from `{failed_anc[0]}`, which the mask domain could not evaluate: {res.failures[failed_anc[0]][:120]}", construct=cons, instance=f"{g.cfg.name}:{name}")
+                continue
             if name in flagged:
                 ctx.violation("C06.R3", where, None, f"{g.cfg.name}: variable `{name}`: " + "; ".join(sorted(set(flagged[name])))[:300], construct=cons, instance=f"{g.cfg.name}:{name}")
                 continue
